@@ -490,6 +490,9 @@ def run(rep):
             s = show(chain[0]["then"])
             ok = "RegexBuilder::build(RegexBuilder::case_insensitive(RegexBuilder::new(s), insensitive))" in s and "format" not in s
             rep.check(ok, "T-PATTERN", "T-PATTERN/regex", chain[0]["sp"], "?re compiles exactly the text after '?' with the pattern's case flag", s[:120])
+    # "?re is an unanchored regex search ... however the engine batches the members": the optimiser may only strip a leading/trailing `.*`
+    import core
+    core.import_rules(rep, "c01", {"REWRITE-CONST"})
     rep.floor("T-SEARCH", 9)
     rep.floor("T-OFFSET", 20)
     rep.floor("LOCKSTEP", 24)
